@@ -351,7 +351,7 @@ func check(p *prop, repo, tier string, seed int64) int {
 	os.MkdirAll(statsDir, 0o755)
 	// Stale replays of this property are removed so a reported path is always from this run.
 	os.RemoveAll(filepath.Join(verifDir, "replays", p.ID))
-	os.RemoveAll(filepath.Join(workDir, "journal"))
+	os.RemoveAll(filepath.Join(workDir, "journal", p.ID))
 
 	var results []procResult
 	var rmu sync.Mutex
@@ -566,7 +566,7 @@ func crashJournal(p *prop, r procResult) string {
 	if !strings.Contains(r.out, "panic:") && !strings.Contains(r.out, "fatal error:") {
 		return ""
 	}
-	files, _ := filepath.Glob(filepath.Join(workDir, "journal", p.ID+"-*.json"))
+	files, _ := filepath.Glob(filepath.Join(workDir, "journal", p.ID, p.ID+"-*.json"))
 	for _, f := range files {
 		b, err := os.ReadFile(f)
 		if err != nil || len(b) == 0 {
